@@ -11,7 +11,7 @@ HP = 2305843009213693951
 HB = 1000003
 OPEN, CLOSE, ERR = -1, -2, -3
 KIND = {"File": 100, "Block": 101, "Group": 102, "DataArray": 103, "Tag": 104, "MultiTag": 105,
-        "Feature": 106, "Source": 107, "Section": 108, "Property": 109}
+        "Feature": 106, "Source": 107, "Section": 108, "Property": 109, "DataFrame": 110}
 
 
 def hstep(h, v):
@@ -167,7 +167,14 @@ class Walker(object):
 
     def group(self, g):
         return self.header("Group", g) + self.link(lambda: g.metadata) + self.linklist(lambda: g.data_arrays) + \
-            self.linklist(lambda: g.tags) + self.linklist(lambda: g.multi_tags) + self.linklist(lambda: g.sources) + [CLOSE]
+            self.linklist(lambda: g.tags) + self.linklist(lambda: g.multi_tags) + self.linklist(lambda: g.sources) + \
+            self.linklist(lambda: g.data_frames) + [CLOSE]
+
+    def data_frame(self, d):
+        def col():
+            rows = d[:] if len(d) else []
+            return payload([r[0] for r in rows])
+        return self.header("DataFrame", d) + safe(col, [ERR]) + self.link(lambda: d.metadata) + [CLOSE]
 
     def data_array(self, a):
         return self.header("DataArray", a) + [safe(lambda: a.label), safe(lambda: a.unit)] + \
@@ -215,7 +222,8 @@ class Walker(object):
         self.cur_block = safe(lambda: b.id, None)
         return hdr + md + self.children(lambda: b.groups, self.group) + \
             self.children(lambda: b.data_arrays, self.data_array) + self.children(lambda: b.tags, self.tag) + \
-            self.children(lambda: b.multi_tags, self.multi_tag) + self.children(lambda: b.sources, self.source) + [CLOSE]
+            self.children(lambda: b.multi_tags, self.multi_tag) + self.children(lambda: b.sources, self.source) + \
+            self.children(lambda: b.data_frames, self.data_frame) + [CLOSE]
 
     def file(self, f):
         return [OPEN, KIND["File"]] + self.children(lambda: f.blocks, self.block) + \
